@@ -84,7 +84,9 @@ func genCrolt(t *rapid.T) croltCase {
 			// a Delete that arrives while the firing loop is at work
 			c.Ops = append(c.Ops, croltOp{K: "deleteDuringWork", Account: acct, Id: id, N: rapid.SampledFrom([]int64{1e6, 50e6, 150e6, 250e6}).Draw(t, l+".after")})
 		case "add":
-			s := rapid.SampledFrom([]string{"300ms", "500ms", "1s", "1500ms", "2500ms", "0s", "150ms", "* * * * * * *", "*/2 * * * * * *", "0 0 0 1 1 * 2001", "@700ms", "@1500ms", "@0s"}).Draw(t, l+".sched")
+			s := rapid.SampledFrom([]string{"300ms", "500ms", "1s", "1500ms", "2500ms", "0s", "150ms", "* * * * * * *", "*/2 * * * * * *", "0 0 0 1 1 * 2001", "@700ms", "@1500ms", "@0s",
+				// absolute due times written with a zone offset (hours after the second @)
+				"@700ms@-7", "@1500ms@5", "@2500ms@-11", "@300ms@13"}).Draw(t, l+".sched")
 			c.Ops = append(c.Ops, croltOp{K: "add", Account: acct, Id: id, Sched: s, Slow: rapid.IntRange(0, 2).Draw(t, l+".slow") == 0})
 		case "delete":
 			c.Ops = append(c.Ops, croltOp{K: "delete", Account: acct, Id: id})
@@ -107,6 +109,7 @@ type croltModelJob struct {
 	once    bool
 	fires   int
 	addedAt time.Time
+	absDue  time.Time // of a job scheduled for an absolute time
 }
 
 func croltSnapshot(c *Cron) (jobs map[string]Job, raw map[string]map[string]string, err error) {
@@ -311,6 +314,10 @@ func runCrolt(c croltCase) *vlib.Outcome {
 				continue
 			}
 			m.fires++
+			if m.once && m.fires == 1 && !m.absDue.IsZero() && m.absDue.After(T) {
+				// (the instant the caller named, not the one in the time index)
+				o.Fail("CROLT_FIRED_EARLY", "%s: job %s fired at %s, before the time it was scheduled for, %s (time index key %q)", when, aid, rel(T), rel(m.absDue), jb.TId)
+			}
 			if m.never {
 				o.Fail("CROLT_FIRED_WITHOUT_OCCURRENCE", "%s: job %s has a schedule without a future occurrence but fired (time index key %q)", when, aid, jb.TId)
 			}
@@ -339,11 +346,21 @@ func runCrolt(c croltCase) *vlib.Outcome {
 		case "add":
 			j := &Job{Account: x.Account, Id: x.Id, Expression: x.Sched}
 			absolute := false
+			var absDue time.Time
 			if strings.HasPrefix(x.Sched, "@") {
 				// an absolute due time (RFC3339), that far from now
-				if d, derr := time.ParseDuration(x.Sched[1:]); derr == nil {
-					j.Expression = now.Add(d).UTC().Format(time.RFC3339Nano)
+				spec, zone := x.Sched[1:], time.UTC
+				if k := strings.Index(spec, "@"); k > 0 {
+					if h, herr := strconv.Atoi(spec[k+1:]); herr == nil && h >= -14 && h <= 14 {
+						zone = time.FixedZone("", h*3600)
+						o.Label("absolute-time-with-zone-offset")
+					}
+					spec = spec[:k]
+				}
+				if d, derr := time.ParseDuration(spec); derr == nil {
+					j.Expression = now.Add(d).In(zone).Format(time.RFC3339Nano)
 					absolute = true
+					absDue = now.Add(d)
 				}
 			}
 			never := false
@@ -375,7 +392,7 @@ func runCrolt(c croltCase) *vlib.Outcome {
 				break
 			}
 			_, derr := time.ParseDuration(x.Sched)
-			model[aid] = &croltModelJob{once: derr == nil || absolute, addedAt: now, never: never, url: j.URL}
+			model[aid] = &croltModelJob{once: derr == nil || absolute, addedAt: now, never: never, url: j.URL, absDue: absDue}
 		case "delete":
 			if err := cr.Delete(x.Account, x.Id); err != nil {
 				o.Fail("CROLT_DELETE_ERROR", "%s: Delete failed: %v", when, err)
